@@ -716,7 +716,23 @@ void AbstractStringValidator::assignAdditionalFacet( const XMLCh* const key
 XMLSize_t AbstractStringValidator::getLength(const XMLCh* const content
                                            , MemoryManager* const) const
 {
-    return XMLString::stringLen(content);
+    // the length is measured in characters:
+    // a surrogate pair is one character, not two
+    XMLSize_t length = 0;
+
+    if (content)
+    {
+        for (const XMLCh* ptr = content; *ptr; ptr++)
+        {
+            if ((*ptr >= 0xD800) && (*ptr <= 0xDBFF) &&
+                (*(ptr+1) >= 0xDC00) && (*(ptr+1) <= 0xDFFF))
+                ptr++;
+
+            length++;
+        }
+    }
+
+    return length;
 }
 
 /***
